@@ -493,12 +493,16 @@ func (h kvHandler) handleKvRawBatchGet(req *kvrpcpb.RawBatchGetRequest) *kvrpcpb
 		}
 	}
 	values := rawKV.RawBatchGet(req.Cf, req.Keys)
-	kvPairs := make([]*kvrpcpb.KvPair, len(values))
-	for i, key := range req.Keys {
-		kvPairs[i] = &kvrpcpb.KvPair{
-			Key:   key,
-			Value: values[i],
+	kvPairs := make([]*kvrpcpb.KvPair, 0, len(values))
+	for i, value := range values {
+		// like TiKV, only return the pairs that exist
+		if value == nil {
+			continue
 		}
+		kvPairs = append(kvPairs, &kvrpcpb.KvPair{
+			Key:   req.Keys[i],
+			Value: value,
+		})
 	}
 	return &kvrpcpb.RawBatchGetResponse{
 		Pairs: kvPairs,
